@@ -180,6 +180,7 @@ def scenarios(tier):
            _scenario("set_combine_stderr(True)||_feed_extended;_feed_extended", 2)]
     if tier == "thorough":
         out.append(_scenario("set_combine_stderr(True)||_feed_extended||set_combine_stderr(True)", 1, togglers=2))
+        out[-1].timeout_ms = 1500000
     return out
 
 
